@@ -253,6 +253,12 @@ func genSentinel(seed uint64, tier, variant string) any {
 	if calm {
 		episodes = r.IntN(3)
 	}
+	if lifetime {
+		// no announcements at all: an expiring sentinel connection and its successor can both be subscribed for a moment,
+		// an event then reaches two listeners and the second blocks on the client's sync.Mutex while the first is parked
+		// inside the simulator - a state synctest cannot see through (seed 1079194237 of an earlier version of the variant)
+		episodes = 0
+	}
 	for ep := 0; ep < episodes; ep++ {
 		kind := r.IntN(100)
 		if calm {
@@ -350,6 +356,9 @@ func genSentinel(seed uint64, tier, variant string) any {
 	}
 	// where the story ends: the node every sentinel finally agrees on (announced by +switch-master in the closing phase)
 	p.X["final"] = pick(r, cur, other(cur), other(cur))
+	if lifetime {
+		p.X["final"] = cur
+	}
 	// the node the sentinels named before may go on answering ROLE as master (a deposed master that has not heard of it)
 	p.X["stale_old"] = r.IntN(2) == 0
 	// the last fault: the first dial after the final announcement is refused (the switch fails once and must be retried)
@@ -999,6 +1008,9 @@ func execSentinel(t *testing.T, plan any, out *Outcome) {
 	}
 	s.Cfg.DrainBound = 30 * time.Second
 	settled := sr.waitQuiet(4000)
+	if lt, _ := p.X["lifetime"].(bool); lt {
+		settled = false // variant lifetime: no closing announcement, no liveness probes (see genSentinel)
+	}
 	if settled {
 		// every sentinel announces the switch; the client hears the one it is subscribed to
 		sr.finalPubStep = s.Step
@@ -1438,4 +1450,7 @@ func (sr *sentRun) judge() {
 		out.probe("more-than-two-data-connections")
 	}
 	out.Nontrivial = judged > 0 && (switches > 0 || refused > 0)
+	if lifetime {
+		out.Nontrivial = judged > 0 && out.Probes["connection-reached-its-lifetime"] > 0
+	}
 }
